@@ -66,6 +66,8 @@ func init() {
 		Rule: "one world per seed index: IDL with mixed requiredness/defaults/ids beyond 64 and 256, parse options SetOptionalBitmap x UseDefaultValue, one of the 16 write/disallow option combinations; 1-4 inputs presenting a tape-chosen subset of fields (absent / null / present, incl. missing required, unknown members); sub-world j2t (native FSM with shaped ReqsCache so ERR_OOM_BM re-entry fires, dirty pooled bitmaps, failing conversion right before), t2j, or cutting (Value.MarshalTo onto an identical descriptor); oracle = requiredness truth-table model. distinct_nontrivial = distinct (sub-world x option combination x knob x capacity class x flavour) signatures"})
 	addCfg(&propCfg{ID: "C04", Level: "exploration", Quick: 40000, Thorough: 3000000,
 		Rule: "one world per seed index: tape-generated IDL and value; 1-4 handles (origin as Node or Value, forks taken at tape-chosen moments); a history of 3-24 steps of SetByPath (existing / insert absent field, map key, one-past-the-end index), SetMany, ReplaceByPath, UnsetByPath (existing / absent), id- and name-addressed, with injected failing operations (wrong-kind path, type-mismatching replacement, error node) and GC+clobber at yields; after every step every live handle is decoded by the harness decoder and compared with its model tree. distinct_nontrivial = distinct (handle count x root kind x op-kind multiset) signatures"})
+	addCfg(&propCfg{ID: "C05", Level: "exploration", Quick: 30000, Thorough: 2000000,
+		Rule: "one world per seed index: knobs (DefaultNodeSliceCap, StoreChildrenByIdShreshold, StoreChildrenByIntHashShreshold) x options (recurse/lazy, StoreChildrenById, StoreChildrenByHash, NotScanParentNode, UseNativeSkip); 1-4 loads of tape-generated values into a PathNode that is fresh, pooled, freed+recycled, or reused (with ResetValue / ResetAll / nothing) after a previous larger/smaller load; after each load the tree is compared child by child (path, byte span) with the harness decoder's view, marshalled (Marshal / MarshalIntoBuffer with canary) and decoded again, then edited (SetField/SetByStr/SetByInt/clear/replace + lookups) and marshalled again. distinct_nontrivial = distinct (options x thresholds x reload kind) signatures"})
 }
 
 func goEnv() []string {
